@@ -607,3 +607,583 @@ Proof.
   - exact (parsed_key_body_short c ecok body k rest H1 H2).
   - exact (parse_sig_hashed_short fuel l s rest' H3 H4).
 Qed.
+
+
+
+(* ------------------------------------------------------------------ *)
+(* the repaired code cannot panic (positive counterpart of F7 / F8)    *)
+(* ------------------------------------------------------------------ *)
+Definition np {A} (r : result A) : Prop := is_panic r = false.
+
+Lemma np_ok : forall {A} (a : A), np (Ok a). Proof. reflexivity. Qed.
+Lemma np_err : forall {A} e, np (@Err A e). Proof. reflexivity. Qed.
+Lemma np_bind : forall {A B} (r : result A) (f : A -> result B),
+  np r -> (forall a, r = Ok a -> np (f a)) -> np (bind r f).
+Proof. intros A B r f H1 H2. destruct r; simpl; auto. Qed.
+Lemma np_if : forall {A} (b : bool) (x y : result A), np x -> np y -> np (if b then x else y).
+Proof. intros. destruct b; auto. Qed.
+
+Lemma mpi_read_np : forall l, np (mpi_read l).
+Proof.
+  intros l. unfold mpi_read. destruct l as [|b0 [|b1 r]]; try reflexivity.
+  destruct (read_n _ r) as [[v rest]|]; reflexivity.
+Qed.
+Lemma parse_oid_np : forall l, np (parse_oid l).
+Proof.
+  intros l. unfold parse_oid. destruct l as [|n r]; try reflexivity.
+  destruct (pgp_max_oid_len <? n); try reflexivity. destruct (read_n n r) as [[o rest]|]; reflexivity.
+Qed.
+Lemma parse_kdf_np : forall c l, np (parse_kdf c l).
+Proof.
+  intros c l. unfold parse_kdf. destruct l as [|n r]; try reflexivity.
+  destruct (n <? 3); try reflexivity. destruct (read_n n r) as [[b rest]|]; try reflexivity.
+  destruct (negb _); try reflexivity. destruct (fixkdf c); reflexivity.
+Qed.
+
+Definition ecok_np (ecok : bytes -> bytes -> result bool) : Prop := forall o p, np (ecok o p).
+
+Lemma new_ecdsa_np : forall ecok oid pt, ecok_np ecok -> np (new_ecdsa ecok oid pt).
+Proof.
+  intros ecok oid pt H. unfold new_ecdsa. destruct (nist_curve_name oid); try reflexivity.
+  apply np_bind; auto. intros ok _. destruct ok; reflexivity.
+Qed.
+Lemma new_25519_np : forall c want oid pt, fix7 c = true -> np (new_25519 c want oid pt).
+Proof.
+  intros c want oid pt H. unfold new_25519. rewrite H. destruct (bytes_eqb oid want); try reflexivity.
+  destruct (lenN (m_bytes pt) =? 33); reflexivity.
+Qed.
+
+Ltac np_step :=
+  match goal with
+  | |- np (bind (mpi_read _) _) => apply np_bind; [apply mpi_read_np | intros [? ?] _]
+  | |- np (bind (parse_oid _) _) => apply np_bind; [apply parse_oid_np | intros [? ?] _]
+  | |- np (bind (parse_kdf _ _) _) => apply np_bind; [apply parse_kdf_np | intros [? ?] _]
+  | |- np (Ok _) => reflexivity
+  | |- np (Err _) => reflexivity
+  end.
+
+Lemma parse_keymat_np : forall c ecok algo l, fix7 c = true -> ecok_np ecok -> np (parse_keymat c ecok algo l).
+Proof.
+  intros c ecok algo l H7 He. unfold parse_keymat.
+  destruct ((algo =? 1) || (algo =? 2) || (algo =? 3)).
+  { repeat np_step. destruct (3 <? lenN (m_bytes m0)); reflexivity. }
+  destruct (algo =? 17). { repeat np_step. }
+  destruct (algo =? 16). { repeat np_step. }
+  destruct (algo =? 19).
+  { repeat np_step. apply np_bind; [now apply new_ecdsa_np | intros; reflexivity]. }
+  destruct (algo =? 18).
+  { repeat np_step. apply np_bind; [|intros; reflexivity].
+    destruct (bytes_eqb b oid_x25519); [now apply new_25519_np | now apply new_ecdsa_np]. }
+  destruct (algo =? 22).
+  { repeat np_step. apply np_bind; [now apply new_25519_np | intros; reflexivity]. }
+  reflexivity.
+Qed.
+
+Lemma parse_public_key_np : forall c ecok l, fix7 c = true -> ecok_np ecok -> np (parse_public_key c ecok l).
+Proof.
+  intros c ecok l H7 He. unfold parse_public_key.
+  destruct l as [|v [|t0 [|t1 [|t2 [|t3 [|algo r]]]]]]; try reflexivity.
+  destruct (negb (v =? 4)); try reflexivity.
+  apply np_bind; [now apply parse_keymat_np | intros [m rest] _; reflexivity].
+Qed.
+
+(* an EdDSA key that was accepted has a 33-octet point, so ed25519.Verify gets a 32-octet key *)
+Definition mat_ok (m : keymat) : Prop :=
+  match m with KEdDSA _ pt => lenN (m_bytes pt) = 33 | _ => True end.
+Definition key_ok (k : pubkey) : Prop := mat_ok (pk_mat k).
+
+Lemma parse_keymat_ok : forall c ecok algo l m rest, fix7 c = true ->
+  parse_keymat c ecok algo l = Ok (m, rest) -> mat_ok m.
+Proof.
+  intros c ecok algo l m rest H7 H. unfold parse_keymat in H.
+  destruct ((algo =? 1) || (algo =? 2) || (algo =? 3)).
+  { apply bind_ok in H. destruct H as [[n l1] [_ H]]. apply bind_ok in H. destruct H as [[e l2] [_ H]].
+    destruct (3 <? lenN (m_bytes e)); [discriminate|]. inversion H; subst. exact I. }
+  destruct (algo =? 17).
+  { do 4 (apply bind_ok in H; destruct H as [[? ?] [_ H]]). inversion H; subst. exact I. }
+  destruct (algo =? 16).
+  { do 3 (apply bind_ok in H; destruct H as [[? ?] [_ H]]). inversion H; subst. exact I. }
+  destruct (algo =? 19).
+  { do 2 (apply bind_ok in H; destruct H as [[? ?] [_ H]]). apply bind_ok in H; destruct H as [? [_ H]].
+    inversion H; subst. exact I. }
+  destruct (algo =? 18).
+  { do 3 (apply bind_ok in H; destruct H as [[? ?] [_ H]]). apply bind_ok in H; destruct H as [? [_ H]].
+    inversion H; subst. exact I. }
+  destruct (algo =? 22).
+  { apply bind_ok in H; destruct H as [[oid l1] [_ H]]. apply bind_ok in H; destruct H as [[pt l2] [_ H]].
+    apply bind_ok in H; destruct H as [u [E H]]. inversion H; subst. simpl.
+    unfold new_25519 in E. rewrite H7 in E. destruct (bytes_eqb oid oid_ed25519); [|discriminate].
+    destruct (lenN (m_bytes pt) =? 33) eqn:E33; [|discriminate]. now apply N.eqb_eq. }
+  discriminate.
+Qed.
+
+Lemma parse_public_key_ok : forall c ecok l k rest, fix7 c = true ->
+  parse_public_key c ecok l = Ok (k, rest) -> key_ok k.
+Proof.
+  intros c ecok l k rest H7 H. unfold parse_public_key in H.
+  destruct l as [|v [|t0 [|t1 [|t2 [|t3 [|algo r]]]]]]; try discriminate.
+  destruct (negb (v =? 4)); [discriminate|].
+  apply bind_ok in H. destruct H as [[m rest'] [E H]]. inversion H; subst. unfold key_ok. simpl.
+  eapply parse_keymat_ok; eauto.
+Qed.
+
+(* signature packets *)
+Lemma parse_subpacket_np : forall emb hashed st l, (forall b, np (emb b)) -> np (parse_subpacket emb hashed st l).
+Proof.
+  intros emb hashed st l He. unfold parse_subpacket. destruct l as [|b0 r0]; try reflexivity.
+  match goal with |- np (match ?h with _ => _ end) => destruct h as [[len sub]|] end; try reflexivity.
+  destruct (read_n len sub) as [[body rest]|]; try reflexivity.
+  destruct body as [|t0 content]; try reflexivity.
+  repeat match goal with
+  | |- np (if ?b then _ else _) => destruct b
+  | |- np (Ok _) => reflexivity
+  | |- np (Err _) => reflexivity
+  | |- np (match ?x with _ => _ end) => destruct x
+  end.
+  apply np_bind; auto. intros e _. destruct (negb _); reflexivity.
+Qed.
+
+Lemma parse_subpackets_loop_np : forall fuel emb hashed st l, (forall b, np (emb b)) ->
+  np (parse_subpackets_loop fuel emb hashed st l).
+Proof.
+  induction fuel; intros emb hashed st l He; simpl; destruct l; try reflexivity.
+  apply np_bind; [now apply parse_subpacket_np | intros [st' rest] _; now apply IHfuel].
+Qed.
+Lemma parse_subpackets_np : forall emb hashed st l, (forall b, np (emb b)) -> np (parse_subpackets emb hashed st l).
+Proof.
+  intros. unfold parse_subpackets. apply np_bind; [now apply parse_subpackets_loop_np|].
+  intros st' _. destruct (sp_created st'); reflexivity.
+Qed.
+
+Lemma parse_sig_fuel_np : forall fuel l, np (parse_sig_fuel fuel l).
+Proof.
+  induction fuel; intros l; [reflexivity|]. simpl.
+  assert (Hemb : forall b, np (bind (parse_sig_fuel fuel b) (fun '(s, _) => Ok (s_core s)))).
+  { intros b. apply np_bind; [apply IHfuel | intros [s r] _; reflexivity]. }
+  destruct l as [|v r]; try reflexivity.
+  destruct (negb (v =? 4)); try reflexivity.
+  destruct r as [|typ [|alg [|hid [|h1 [|h0 r1]]]]]; try reflexivity.
+  destruct (negb (sig_alg_ok alg)); try reflexivity.
+  destruct (negb (hash_id_ok hid)); try reflexivity.
+  destruct (read_n (h1 * 256 + h0) r1) as [[hashed r2]|]; try reflexivity.
+  apply np_bind; [now apply parse_subpackets_np|]. intros st1 _.
+  destruct r2 as [|u1 [|u0 r3]]; try reflexivity.
+  destruct (read_n (u1 * 256 + u0) r3) as [[unhashed r4]|]; try reflexivity.
+  apply np_bind; [now apply parse_subpackets_np|]. intros st2 _.
+  destruct r4 as [|g0 [|g1 r5]]; try reflexivity.
+  apply np_bind; [|intros [mpis r6] _; reflexivity].
+  destruct ((alg =? 1) || (alg =? 3)); repeat np_step.
+Qed.
+
+(* secret keys *)
+Definition params_np (P : params) : Prop :=
+  (forall h m, np (p_D P h m)) /\ (forall k h d cs, np (p_prim P k h d cs)) /\
+  ecok_np (p_ecok P) /\ (forall k, np (p_rsa_ok P k)).
+
+Lemma parse_private_np : forall c P k l, fix8 c = true -> params_np P -> np (parse_private c P k l).
+Proof.
+  intros c P k l H8 (_ & _ & _ & Hr). unfold parse_private. rewrite H8.
+  destruct ((pk_algo k =? 1) || (pk_algo k =? 2) || (pk_algo k =? 3)).
+  { repeat np_step. apply np_bind; auto. intros ok _. destruct ok; reflexivity. }
+  destruct ((pk_algo k =? 17) || (pk_algo k =? 16) || (pk_algo k =? 19) || (pk_algo k =? 22)).
+  { repeat np_step. }
+  destruct (pk_algo k =? 18); repeat np_step.
+Qed.
+
+Lemma parse_secret_tail_np : forall c P k short l, fix8 c = true -> params_np P -> np (parse_secret_tail c P k short l).
+Proof.
+  intros c P k short l H8 HP. unfold parse_secret_tail. destruct l as [|s2k r]; try reflexivity.
+  destruct (s2k =? 0).
+  { destruct short; [reflexivity | now apply parse_private_np]. }
+  destruct ((s2k =? 254) || (s2k =? 255)); try reflexivity.
+  destruct r as [|cipher [|t [|h r1]]]; try reflexivity.
+  destruct (negb (hash_id_ok h)); try reflexivity.
+  destruct (negb (p_avail P h)); try reflexivity.
+  apply np_bind.
+  - destruct (t =? 0); try reflexivity. destruct (t =? 1).
+    { destruct (read_n 8 r1) as [[? ?]|]; reflexivity. }
+    destruct (t =? 3); try reflexivity. destruct (read_n 9 r1) as [[? ?]|]; reflexivity.
+  - intros r2 _. destruct (cipher_block_size cipher =? 0); try reflexivity.
+    destruct (read_n _ r2) as [[? ?]|]; try reflexivity. destruct short; reflexivity.
+Qed.
+
+(* packets and events *)
+Definition packet_ok (p : packet) : Prop := match p with PKey _ _ k => key_ok k | _ => True end.
+Definition event_ok (ev : event) : Prop :=
+  match ev with EvP p => packet_ok p | EvPanic => False | _ => True end.
+
+Lemma read_packet_ok : forall c P tag body short, fix7 c = true -> fix8 c = true -> params_np P ->
+  match read_packet c P tag body short with
+  | RPanic => False
+  | RP p => packet_ok p
+  | _ => True
+  end.
+Proof.
+  intros c P tag body short H7 H8 HP. pose proof HP as (_ & _ & He & _). unfold read_packet.
+  destruct ((tag =? 2) || (tag =? 6) || (tag =? 14)).
+  { destruct body as [|v b]; [destruct short; exact I|].
+    destruct (v <? 4); [exact I|].
+    destruct (tag =? 2).
+    - pose proof (parse_sig_fuel_np (S (length (v :: b))) (v :: b)) as N. unfold parse_sig.
+      destruct (parse_sig_fuel _ _) as [[s [|? ?]]|e|s]; try exact I; try discriminate.
+      unfold rd_of_err. destruct (String.eqb e miss); exact I.
+    - pose proof (parse_public_key_np c (p_ecok P) (v :: b) H7 He) as N.
+      destruct (parse_public_key c (p_ecok P) (v :: b)) as [[k [|? ?]]|e|s] eqn:E; try exact I; try discriminate.
+      + simpl. eapply parse_public_key_ok; eauto.
+      + unfold rd_of_err. destruct (String.eqb e miss); exact I. }
+  destruct ((tag =? 5) || (tag =? 7)).
+  { pose proof (parse_public_key_np c (p_ecok P) body H7 He) as N.
+    destruct (parse_public_key c (p_ecok P) body) as [[k tail]|e|s] eqn:E; try discriminate.
+    - pose proof (parse_secret_tail_np c P k short tail H8 HP) as N2.
+      destruct (parse_secret_tail c P k short tail) as [u|e|s]; try discriminate.
+      + simpl. eapply parse_public_key_ok; eauto.
+      + unfold rd_of_err. destruct (String.eqb e miss); exact I.
+    - unfold rd_of_err. destruct (String.eqb e miss); exact I. }
+  destruct (tag =? 13). { destruct short; exact I. }
+  destruct (unmodelled_tag tag); exact I.
+Qed.
+
+Lemma events_fuel_ok : forall fuel c P l, fix7 c = true -> fix8 c = true -> params_np P ->
+  Forall event_ok (events_fuel fuel c P l).
+Proof.
+  induction fuel; intros c P l H7 H8 HP; simpl; [constructor|].
+  destruct (read_header l) as [| | |tag len rest]; try (repeat constructor).
+  set (short := lenN rest <? len). set (n := if short then length rest else N.to_nat len).
+  pose proof (read_packet_ok c P tag (take n rest) short H7 H8 HP) as R.
+  destruct (read_packet c P tag (take n rest) short); try (repeat constructor); auto.
+Qed.
+
+(* verification *)
+Lemma crypto_check_np : forall c P k s dg, params_np P -> key_ok k -> np (crypto_check c P k s dg).
+Proof.
+  intros c P k s dg (_ & Hp & _ & _) Hk. unfold crypto_check.
+  destruct ((pk_algo k =? 1) || (pk_algo k =? 3)).
+  { destruct (pk_mat k); try reflexivity. destruct (sc_mpis s) as [|? [|? ?]]; try reflexivity. apply Hp. }
+  destruct (pk_algo k =? 17).
+  { destruct (pk_mat k); try reflexivity. destruct (sc_mpis s) as [|? [|? [|? ?]]]; try reflexivity. apply Hp. }
+  destruct (pk_algo k =? 19).
+  { destruct (sc_mpis s) as [|? [|? [|? ?]]]; try reflexivity. apply Hp. }
+  destruct (pk_algo k =? 22); try reflexivity.
+  unfold key_ok in Hk. destruct (pk_mat k); try reflexivity. simpl in Hk.
+  destruct (sc_mpis s) as [|? [|? [|? ?]]]; try reflexivity.
+  rewrite Hk. simpl negb. cbv iota.
+  match goal with |- np (if ?b then _ else _) => destruct b end; [reflexivity | apply Hp].
+Qed.
+
+Lemma verify_signature_np : forall c P k prefix s, params_np P -> key_ok k -> np (verify_signature c P k prefix s).
+Proof.
+  intros c P k prefix s HP Hk. pose proof HP as (Hd & _). unfold verify_signature.
+  destruct (negb (pk_can_sign k)); try reflexivity.
+  apply np_bind; auto. intros dg _.
+  destruct (negb (tag_match dg (sc_tag s))); try reflexivity.
+  destruct (negb (pk_algo k =? sc_alg s)); try reflexivity.
+  apply np_bind; [now apply crypto_check_np|]. intros ok _. destruct ok; reflexivity.
+Qed.
+
+Lemma verify_uid_sig_np : forall c P k id s, params_np P -> key_ok k -> np (verify_uid_sig c P k id s).
+Proof. intros. unfold verify_uid_sig. destruct (negb _); [reflexivity | now apply verify_signature_np]. Qed.
+
+Lemma verify_key_sig_np : forall c P k sk s, params_np P -> key_ok k -> key_ok sk -> np (verify_key_sig c P k sk s).
+Proof.
+  intros c P k sk s HP Hk Hsk. unfold verify_key_sig. destruct (negb _); [reflexivity|].
+  apply np_bind; [now apply verify_signature_np|]. intros _ _.
+  destruct (has_flag _ _); try reflexivity. destruct (s_emb s) as [e|]; try reflexivity.
+  destruct (negb _); [reflexivity | now apply verify_signature_np].
+Qed.
+
+Lemma verify_revocations_np : forall c P k revs, params_np P -> key_ok k -> np (verify_revocations c P k revs).
+Proof.
+  intros c P k revs HP Hk. induction revs as [|r rest IH]; simpl; [reflexivity|].
+  assert (N : np (verify_revocation c P k r)).
+  { unfold verify_revocation. destruct (negb _); [reflexivity | now apply verify_signature_np]. }
+  destruct (verify_revocation c P k r) as [u|e|s]; auto; try discriminate.
+  destruct (String.eqb e miss); reflexivity.
+Qed.
+
+Definition mode_ok (m : mode) : Prop := match m with MSub k _ => key_ok k | _ => True end.
+
+Lemma close_mode_np : forall st m, np (close_mode st m).
+Proof. intros st m. destruct m as [|n [s|] o|k [s|]]; reflexivity. Qed.
+
+Lemma top_step_mode_ok : forall st p, packet_ok p ->
+  match top_step st p with Cont _ m => mode_ok m | Stop _ => True end.
+Proof.
+  intros st p Hp. destruct p as [sub sec k|id|s]; simpl.
+  - destruct sub; simpl; auto.
+  - exact I.
+  - destruct (_ =? _); exact I.
+Qed.
+
+Lemma step_np : forall c P primary pid st m p, params_np P -> key_ok primary -> mode_ok m -> packet_ok p ->
+  np (step c P primary pid st m p) /\
+  (forall n, step c P primary pid st m p = Ok n -> match n with Cont _ m' => mode_ok m' | Stop _ => True end).
+Proof.
+  intros c P primary pid st m p HP Hk Hm Hp.
+  destruct (is_sig_packet p) eqn:Ep.
+  - destruct p as [| |s]; try discriminate. destruct m as [|name self others|k sg].
+    + rewrite step_top. split; [reflexivity|]. intros n E. injection E as <-. exact (top_step_mode_ok st (PSig s) Hp).
+    + rewrite step_uid_sig. destruct (is_self_cert pid (s_core s)).
+      * split.
+        { apply np_bind; [now apply verify_uid_sig_np | intros; reflexivity]. }
+        { intros n E. apply bind_ok' in E. destruct E as [u [_ E]]. injection E as <-. exact I. }
+      * split; [reflexivity|]. intros n E. injection E as <-. exact I.
+    + rewrite step_sub_sig. destruct (negb (binding_type (sc_type (s_core s)))).
+      { split; [reflexivity | intros n E; discriminate]. }
+      split.
+      { apply np_bind; [now apply verify_key_sig_np|]. intros _ _.
+        destruct (_ =? _); [reflexivity|]. destruct (should_replace sg (s_core s)); reflexivity. }
+      { intros n E. apply bind_ok' in E. destruct E as [u [_ E]].
+        destruct (_ =? _); [injection E as <-; exact Hm|].
+        destruct (should_replace sg (s_core s)); injection E as <-; exact Hm. }
+  - destruct m as [|name self others|k sg].
+    + rewrite step_top. split; [reflexivity|]. intros n E. injection E as <-. exact (top_step_mode_ok st p Hp).
+    + rewrite step_close by (discriminate || assumption). split.
+      { apply np_bind; [apply close_mode_np | intros; reflexivity]. }
+      { intros n E. apply bind_ok' in E. destruct E as [st' [_ E]]. injection E as <-. exact (top_step_mode_ok st' p Hp). }
+    + rewrite step_close by (discriminate || assumption). split.
+      { apply np_bind; [apply close_mode_np | intros; reflexivity]. }
+      { intros n E. apply bind_ok' in E. destruct E as [st' [_ E]]. injection E as <-. exact (top_step_mode_ok st' p Hp). }
+Qed.
+
+Lemma finish_np : forall c P primary st, params_np P -> key_ok primary -> np (finish c P primary st).
+Proof.
+  intros. unfold finish. destruct (st_ids st); [reflexivity|].
+  apply np_bind; [now apply verify_revocations_np | intros; reflexivity].
+Qed.
+
+Lemma run_packets_np : forall c P primary pid evs st m, params_np P -> key_ok primary -> mode_ok m ->
+  Forall event_ok evs -> np (run_packets c P primary pid st m evs).
+Proof.
+  intros c P primary pid evs. induction evs as [|ev rest IH]; intros st m HP Hk Hm Hev; simpl.
+  - apply np_bind; [apply close_mode_np | intros; now apply finish_np].
+  - inversion Hev as [|? ? Hev1 Hev2]; subst.
+    destruct ev as [p| | | |]; try reflexivity; [|contradiction].
+    simpl in Hev1. destruct (step_np c P primary pid st m p HP Hk Hm Hev1) as [N1 N2].
+    apply np_bind; auto. intros n En. specialize (N2 n En).
+    destruct n as [st' m'|st']; [now apply IH | now apply finish_np].
+Qed.
+
+Theorem pgp_key_no_panic : forall c P private stream, fix7 c = true -> fix8 c = true -> params_np P ->
+  np (pgp_key c P private stream).
+Proof.
+  intros c P private stream H7 H8 HP. unfold pgp_key. apply np_bind; [|intros; reflexivity].
+  pose proof (events_fuel_ok (S (length stream)) c P stream H7 H8 HP) as Hev. fold (events_of c P stream) in Hev.
+  unfold read_entity. destruct (events_of c P stream) as [|ev rest]; [reflexivity|].
+  inversion Hev as [|? ? Hev1 Hev2]; subst.
+  destruct ev as [p| | | |]; try reflexivity; [|contradiction].
+  destruct p as [sub sec k|id|s]; try reflexivity.
+  destruct (negb (algo_can_sign (pk_algo k))); [reflexivity|].
+  apply run_packets_np; auto. exact I.
+Qed.
+
+
+
+(* ------------------------------------------------------------------ *)
+(* fuel is never exhausted (the termination arguments of the Go loops) *)
+(* ------------------------------------------------------------------ *)
+Lemma read_n_lengths : forall n l a r, read_n n l = Some (a, r) -> (length l = length a + length r)%nat.
+Proof. intros n l a r H. apply read_n_spec in H. destruct H as [H _]. subst l. apply app_length. Qed.
+
+Lemma read_header_shorter : forall l tag len rest, read_header l = HPkt tag len rest -> (length rest < length l)%nat.
+Proof.
+  intros l tag len rest H. unfold read_header in H. destruct l as [|b r]; [discriminate|].
+  destruct (b <? 128); [discriminate|].
+  destruct (N.land b 64 =? 0).
+  - destruct (N.land b 3 =? 3); [discriminate|].
+    destruct (read_n _ r) as [[lb rest']|] eqn:E; [|discriminate]. inversion H; subst.
+    apply read_n_lengths in E. simpl. lia.
+  - destruct r as [|l0 r1]; [discriminate|].
+    destruct (l0 <? 192); [inversion H; subst; simpl; lia|].
+    destruct (l0 <? 224).
+    { destruct r1 as [|l1 r2]; [discriminate|]. inversion H; subst. simpl. lia. }
+    destruct (l0 <? 255); [discriminate|].
+    destruct (read_n 4 r1) as [[lb rest']|] eqn:E; [|discriminate]. inversion H; subst.
+    apply read_n_lengths in E. simpl. lia.
+Qed.
+
+Theorem events_fuel_stable : forall f1 f2 c P l, (length l < f1)%nat -> (length l < f2)%nat ->
+  events_fuel f1 c P l = events_fuel f2 c P l.
+Proof.
+  induction f1; intros f2 c P l H1 H2; [lia|]. destruct f2; [lia|]. simpl.
+  destruct (read_header l) as [| | |tag len rest] eqn:E; auto.
+  apply read_header_shorter in E.
+  set (short := lenN rest <? len). set (n := if short then length rest else N.to_nat len).
+  assert (L : (length (drop n rest) <= length rest)%nat) by (rewrite drop_length; lia).
+  destruct (read_packet c P tag (take n rest) short); auto.
+  - f_equal. apply IHf1; lia.
+  - apply IHf1; lia.
+Qed.
+
+(* one subpacket consumes at least its length octet, and hands only shorter strings to the embedded parser *)
+Lemma parse_subpacket_shorter : forall emb hashed st l st' rest,
+  parse_subpacket emb hashed st l = Ok (st', rest) -> (length rest < length l)%nat.
+Proof.
+  intros emb hashed st l st' rest H. unfold parse_subpacket in H. destruct l as [|b0 r0]; [discriminate|].
+  match type of H with (match ?h with _ => _ end) = _ => destruct h as [[len sub]|] eqn:Eh end; [|discriminate].
+  destruct (read_n len sub) as [[body rest']|] eqn:E; [|discriminate].
+  destruct body as [|t0 content]; [discriminate|].
+  assert (R : rest = rest').
+  { repeat match type of H with
+    | (if ?b then _ else _) = _ => destruct b
+    | (match ?x with _ => _ end) = _ => destruct x eqn:?
+    | Err _ = _ => discriminate
+    | Ok _ = Ok _ => inversion H; reflexivity
+    | bind _ _ = _ => apply bind_ok in H; destruct H as [? [_ H]]
+    end. }
+  subst rest'. apply read_n_lengths in E.
+  assert (S : (length sub <= length r0)%nat).
+  { destruct (b0 <? 192); [inversion Eh; subst; lia|].
+    destruct (b0 <? 255).
+    - destruct r0 as [|b1 r1]; [discriminate|]. inversion Eh; subst. simpl. lia.
+    - destruct r0 as [|b1 [|b2 [|b3 [|b4 r4]]]]; try discriminate. inversion Eh; subst. simpl. lia. }
+  simpl in *. lia.
+Qed.
+
+Lemma parse_subpacket_emb_ext : forall emb1 emb2 hashed st l,
+  (forall b, (length b < length l)%nat -> emb1 b = emb2 b) ->
+  parse_subpacket emb1 hashed st l = parse_subpacket emb2 hashed st l.
+Proof.
+  intros emb1 emb2 hashed st l H. unfold parse_subpacket. destruct l as [|b0 r0]; auto.
+  match goal with |- (match ?h with _ => _ end) = _ => destruct h as [[len sub]|] eqn:Eh end; auto.
+  destruct (read_n len sub) as [[body rest']|] eqn:E; auto.
+  destruct body as [|t0 content]; auto.
+  assert (L : (length content < length (b0 :: r0))%nat).
+  { apply read_n_lengths in E.
+    assert (S : (length sub <= length r0)%nat).
+    { destruct (b0 <? 192); [inversion Eh; subst; lia|].
+      destruct (b0 <? 255).
+      - destruct r0 as [|b1 r1]; [discriminate|]. inversion Eh; subst. simpl. lia.
+      - destruct r0 as [|b1 [|b2 [|b3 [|b4 r4]]]]; try discriminate. inversion Eh; subst. simpl. lia. }
+    simpl in *. lia. }
+  rewrite (H content L). reflexivity.
+Qed.
+
+Lemma parse_subpackets_loop_stable : forall f1 f2 emb1 emb2 hashed st l,
+  (length l <= f1)%nat -> (length l <= f2)%nat ->
+  (forall b, (length b < length l)%nat -> emb1 b = emb2 b) ->
+  parse_subpackets_loop f1 emb1 hashed st l = parse_subpackets_loop f2 emb2 hashed st l.
+Proof.
+  induction f1; intros f2 emb1 emb2 hashed st l H1 H2 He.
+  - destruct l; [|simpl in H1; lia]. destruct f2; reflexivity.
+  - destruct l as [|x l']; [destruct f2; reflexivity|]. destruct f2; [simpl in H2; lia|].
+    cbn [parse_subpackets_loop].
+    rewrite (parse_subpacket_emb_ext emb1 emb2 hashed st (x :: l') He).
+    destruct (parse_subpacket emb2 hashed st (x :: l')) as [[st' rest]|e|s] eqn:E; auto. simpl.
+    apply parse_subpacket_shorter in E.
+    apply IHf1; try (simpl in *; lia). intros b Hb. apply He. lia.
+Qed.
+
+(* with the fuel the model supplies, exhaustion is never reported *)
+Lemma parse_subpacket_err_fuel : forall emb hashed st l,
+  parse_subpacket emb hashed st l = Err "fuel" ->
+  exists b, (length b < length l)%nat /\ emb b = Err "fuel".
+Proof.
+  intros emb hashed st l E. unfold parse_subpacket in E. destruct l as [|b0 r0]; [discriminate|].
+  match type of E with (match ?h with _ => _ end) = _ => destruct h as [[len sub]|] eqn:Eh end; [|discriminate].
+  destruct (read_n len sub) as [[body rest']|] eqn:Er; [|discriminate].
+  destruct body as [|t0 content]; [discriminate|].
+  assert (L : (length content < length (b0 :: r0))%nat).
+  { apply read_n_lengths in Er.
+    assert (S : (length sub <= length r0)%nat).
+    { destruct (b0 <? 192); [inversion Eh; subst; lia|].
+      destruct (b0 <? 255).
+      - destruct r0 as [|b1 r1]; [discriminate|]. inversion Eh; subst. simpl. lia.
+      - destruct r0 as [|b1 [|b2 [|b3 [|b4 r4]]]]; try discriminate. inversion Eh; subst. simpl. lia. }
+    simpl in *. lia. }
+  repeat match type of E with
+  | (if ?b then _ else _) = _ => destruct b
+  | (match ?x with _ => _ end) = _ => destruct x eqn:?
+  | Err _ = Err _ => discriminate
+  | Ok _ = Err _ => discriminate
+  end.
+  destruct (emb content) as [e'|e'|s'] eqn:Ee; simpl in E; try discriminate.
+  - destruct (negb _); discriminate.
+  - inversion E; subst. exists content. auto.
+Qed.
+
+Lemma parse_subpackets_loop_no_fuel_err : forall f emb hashed st l, (length l <= f)%nat ->
+  (forall b, (length b < length l)%nat -> emb b <> Err "fuel") ->
+  parse_subpackets_loop f emb hashed st l <> Err "fuel".
+Proof.
+  induction f; intros emb hashed st l H He.
+  - destruct l; [discriminate | simpl in H; lia].
+  - destruct l as [|x l']; [discriminate|]. cbn [parse_subpackets_loop].
+    destruct (parse_subpacket emb hashed st (x :: l')) as [[st' rest]|e|s] eqn:E; simpl; try discriminate.
+    + apply parse_subpacket_shorter in E. apply IHf; [simpl in *; lia|].
+      intros b Hb. apply He. lia.
+    + intros X. inversion X; subst. apply parse_subpacket_err_fuel in E. destruct E as [b [Hb Eb]].
+      exact (He b Hb Eb).
+Qed.
+
+Lemma mpi_read_not_fuel : forall l, mpi_read l <> Err "fuel".
+Proof.
+  intros l. unfold mpi_read. destruct l as [|b0 [|b1 r]]; try discriminate.
+  destruct (read_n ((b0 * 256 + b1 + 7) / 8) r) as [[v rest]|]; discriminate.
+Qed.
+
+Theorem parse_sig_fuel_no_fuel_err : forall f l, (length l < f)%nat -> parse_sig_fuel f l <> Err "fuel".
+Proof.
+  induction f; intros l H; [lia|]. cbn [parse_sig_fuel].
+  destruct l as [|v r]; [discriminate|].
+  destruct (negb (v =? 4)); [discriminate|].
+  destruct r as [|typ [|alg [|hid [|h1 [|h0 r1]]]]]; try discriminate.
+  destruct (negb (sig_alg_ok alg)); [discriminate|]. destruct (negb (hash_id_ok hid)); [discriminate|].
+  destruct (read_n (h1 * 256 + h0) r1) as [[hashed r2]|] eqn:E1; [|discriminate].
+  pose proof (read_n_lengths _ _ _ _ E1) as L1.
+  assert (Emb : forall b, (length b < length r1)%nat ->
+            bind (parse_sig_fuel f b) (fun '(s, _) => Ok (s_core s)) <> Err "fuel").
+  { intros b Hb X. destruct (parse_sig_fuel f b) as [[s r]|e|s] eqn:E; simpl in X; try discriminate.
+    inversion X; subst. revert E. apply IHf. simpl in *. lia. }
+  unfold parse_subpackets.
+  destruct (parse_subpackets_loop (length hashed) _ true spst0 hashed) as [st1|e|s] eqn:P1; simpl; try discriminate.
+  2:{ intros X. inversion X; subst. revert P1. apply parse_subpackets_loop_no_fuel_err; auto.
+      intros b Hb. apply Emb. lia. }
+  destruct (sp_created st1); [|discriminate]. simpl.
+  destruct r2 as [|u1 [|u0 r3]]; try discriminate.
+  destruct (read_n (u1 * 256 + u0) r3) as [[unhashed r4]|] eqn:E2; [|discriminate].
+  pose proof (read_n_lengths _ _ _ _ E2) as L2.
+  destruct (parse_subpackets_loop (length unhashed) _ false st1 unhashed) as [st2|e|s] eqn:P2; simpl; try discriminate.
+  2:{ intros X. inversion X; subst. revert P2. apply parse_subpackets_loop_no_fuel_err; auto.
+      intros b Hb. apply Emb. simpl in *. lia. }
+  destruct (sp_created st2); [|discriminate]. simpl.
+  destruct r4 as [|g0 [|g1 r5]]; try discriminate.
+  match goal with |- bind ?m _ <> _ => destruct m as [[mpis r6]|e|s] eqn:Em end; simpl; try discriminate.
+  intros X. inversion X; subst.
+  destruct ((alg =? 1) || (alg =? 3)).
+  - destruct (mpi_read r5) as [[a x]|e|s] eqn:M1; simpl in Em; try discriminate.
+    inversion Em; subst. exact (mpi_read_not_fuel _ M1).
+  - destruct (mpi_read r5) as [[a x]|e|s] eqn:M1; simpl in Em; try discriminate.
+    + destruct (mpi_read x) as [[b y]|e|s] eqn:M2; simpl in Em; try discriminate.
+      inversion Em; subst. exact (mpi_read_not_fuel _ M2).
+    + inversion Em; subst. exact (mpi_read_not_fuel _ M1).
+Qed.
+
+Corollary parse_sig_no_fuel_err : forall l, parse_sig l <> Err "fuel".
+Proof. intros l. unfold parse_sig. apply parse_sig_fuel_no_fuel_err. lia. Qed.
+
+Theorem parse_sig_fuel_stable : forall f1 f2 l, (length l < f1)%nat -> (length l < f2)%nat ->
+  parse_sig_fuel f1 l = parse_sig_fuel f2 l.
+Proof.
+  induction f1; intros f2 l H1 H2; [lia|]. destruct f2; [lia|]. cbn [parse_sig_fuel].
+  destruct l as [|v r]; auto.
+  destruct (negb (v =? 4)); auto.
+  destruct r as [|typ [|alg [|hid [|h1 [|h0 r1]]]]]; auto.
+  destruct (negb (sig_alg_ok alg)); auto. destruct (negb (hash_id_ok hid)); auto.
+  destruct (read_n (h1 * 256 + h0) r1) as [[hashed r2]|] eqn:E1; auto.
+  pose proof (read_n_lengths _ _ _ _ E1) as L1.
+  assert (Emb : forall b, (length b < length r1)%nat ->
+            bind (parse_sig_fuel f1 b) (fun '(s, _) => Ok (s_core s)) = bind (parse_sig_fuel f2 b) (fun '(s, _) => Ok (s_core s))).
+  { intros b Hb. rewrite (IHf1 f2 b); auto; simpl in *; lia. }
+  unfold parse_subpackets at 1 3.
+  rewrite (parse_subpackets_loop_stable (length hashed) (length hashed) _
+             (fun b => bind (parse_sig_fuel f2 b) (fun '(s, _) => Ok (s_core s))) true spst0 hashed); auto.
+  2:{ intros b Hb. apply Emb. lia. }
+  destruct (bind (parse_subpackets_loop (length hashed) _ true spst0 hashed) _) as [st1|e|s]; auto. simpl.
+  destruct r2 as [|u1 [|u0 r3]]; auto.
+  destruct (read_n (u1 * 256 + u0) r3) as [[unhashed r4]|] eqn:E2; auto.
+  pose proof (read_n_lengths _ _ _ _ E2) as L2.
+  unfold parse_subpackets.
+  rewrite (parse_subpackets_loop_stable (length unhashed) (length unhashed) _
+             (fun b => bind (parse_sig_fuel f2 b) (fun '(s, _) => Ok (s_core s))) false st1 unhashed); auto.
+  intros b Hb. apply Emb. simpl in *. lia.
+Qed.
